@@ -342,6 +342,30 @@ impl ZarrAsyncChainStorage {
         Ok(())
     }
 
+    /// Store a placeholder for an event field that has no value on the current event
+    fn push_missing_param(&mut self, name: &str, is_warmup: bool) -> Result<()> {
+        let Some(buffer) = self.stats_buffers.get_mut(name) else {
+            panic!("Unknown param name: {}", name);
+        };
+        let array = if is_warmup {
+            self.arrays.warmup_param_arrays[name].clone()
+        } else {
+            self.arrays.sample_param_arrays[name].clone()
+        };
+        let width = array.shape().iter().skip(2).product::<u64>() as usize;
+        if let Some(chunk) = buffer.push_missing(width) {
+            queue_write(
+                &self.rt_handle,
+                self.pending_writes.clone(),
+                self.max_queued_writes,
+                array,
+                chunk,
+                self.chain,
+            )?;
+        }
+        Ok(())
+    }
+
     /// Store a draw value, spawning async write when buffer is full
     fn push_draw(&mut self, name: &str, value: Value, is_warmup: bool) -> Result<()> {
         if ["draw", "chain"].contains(&name) {
@@ -457,6 +481,26 @@ impl ChainStorage for ZarrAsyncChainStorage {
             self.last_sample_was_warmup = false;
         }
 
+        // An event field without a value on an event that did occur gets a placeholder, so
+        // that row k of every field of an event dimension belongs to event k.
+        let occurring: Vec<&str> = stats
+            .iter()
+            .filter(|(_, value)| value.is_some())
+            .filter_map(|(name, _)| self.event_dim_of_stat.get(*name).map(|dim| dim.as_str()))
+            .collect();
+        let missing: Vec<&str> = stats
+            .iter()
+            .filter(|(_, value)| value.is_none())
+            .filter(|(name, _)| {
+                self.event_dim_of_stat
+                    .get(*name)
+                    .is_some_and(|dim| occurring.contains(&dim.as_str()))
+            })
+            .map(|(name, _)| *name)
+            .collect();
+        for name in missing {
+            self.push_missing_param(name, info.tuning)?;
+        }
         for (name, value) in stats {
             if let Some(value) = value {
                 self.push_param(name, value, info.tuning)?;
